@@ -17,6 +17,7 @@ import YangVerif.Drv.C06
 import YangVerif.Drv.C01
 import YangVerif.Drv.C02
 import YangVerif.Drv.C14
+import YangVerif.Drv.C13
 import YangVerif.Drv.C16
 
 def dispatch (line : String) : String :=
@@ -32,6 +33,7 @@ def dispatch (line : String) : String :=
   | "c15" :: rest => YangVerif.Drv.C15.handle rest
   | "c01" :: rest => YangVerif.Drv.C01.handle rest
   | "c02" :: rest => YangVerif.Drv.C02.handle rest
+  | "c13" :: rest => YangVerif.Drv.C13.handle rest
   | "c14" :: rest => YangVerif.Drv.C14.handle rest
   | "c06" :: rest => YangVerif.Drv.C06.handle rest
   | "c07" :: rest => YangVerif.Drv.C07.handle rest
